@@ -226,6 +226,7 @@ Fixpoint hist_ok (pending:bool) (ops:list iwop) : bool :=
   | OpComplete :: t => hist_ok false t
   | OpWrite _ :: t => hist_ok false t
   | OpClear :: t => negb pending && hist_ok false t
+  | OpReopen :: t => negb pending && hist_ok false t
   end.
 
 Fixpoint hist_written (acc:list (list Z)) (ops:list iwop) : list (list Z) :=
@@ -235,6 +236,7 @@ Fixpoint hist_written (acc:list (list Z)) (ops:list iwop) : list (list Z) :=
   | OpWrite p :: t => hist_written (acc ++ p) t
   | OpComplete :: t => hist_written acc t
   | OpClear :: t => hist_written [] t
+  | OpReopen :: t => hist_written acc t
   end.
 
 Lemma st_data_clear (s:store Z) : st_data (st_clear s) = [].
@@ -247,80 +249,6 @@ Proof.
   constructor; cbn [iw_cs iw_ind iw_val iw_rawv iw_rawi iw_acc iw_ii iw_vi concat cumends]; try lia; auto.
   - rewrite st_data_clear, Hvi. reflexivity.
   - exists []. rewrite st_data_clear, Hii. split; [left; auto|reflexivity].
-Qed.
-
-Lemma iw_run_inv ops : forall w strs pending,
-  Inv w strs -> (pending = false -> iw_vi w = 0 /\ iw_ii w = 0) ->
-  hist_ok pending ops = true ->
-  exists w', iw_run w ops = Ok w' /\ Clean w' (hist_written strs ops).
-Proof.
-  induction ops as [|o t IH]; intros w strs pending I Hp Hok.
-  - cbn in *. exists w. destruct pending; [discriminate|]. split; [reflexivity|]. split; [exact I|]. apply Hp. reflexivity.
-  - cbn [iw_run hist_written]. destruct o as [p| |p|]; cbn [iw_op hist_ok] in *.
-    + destruct (iw_write_part_inv p w strs I) as (w1 & H1 & I1). rewrite H1. cbn [bind].
-      apply (IH w1 _ true I1); [discriminate|exact Hok].
-    + destruct (iw_complete_inv w strs I) as (w1 & H1 & (I1 & C1)). rewrite H1. cbn [bind].
-      apply (IH w1 _ false I1); [intros _; exact C1|exact Hok].
-    + destruct (iw_write_part_inv p w strs I) as (w1 & H1 & I1). rewrite H1. cbn [bind].
-      destruct (iw_complete_inv w1 _ I1) as (w2 & H2 & (I2 & C2)). rewrite H2. cbn [bind].
-      apply (IH w2 _ false I2); [intros _; exact C2|exact Hok].
-    + apply andb_prop in Hok. destruct Hok as [Hnp Hok]. destruct pending; [discriminate|].
-      cbn [bind].
-      assert (Cw : Clean w strs) by (split; [exact I|apply Hp; reflexivity]).
-      destruct (iw_clear_clean w strs Cw) as (I1 & C1).
-      apply (IH (iw_clear w) [] false I1); [intros _; exact C1|exact Hok].
-Qed.
-
-Lemma iw_init_fresh h5 cs : 1 <= cs ->
-  exists w0, iw_init cs (fresh h5) (fresh h5) = Ok w0 /\ Clean w0 [].
-Proof.
-  intros Hcs. unfold iw_init.
-  assert (Hd : st_data (fresh h5) = []) by (destruct h5; reflexivity).
-  unfold st_len. rewrite Hd. change (0 <? len (@nil Z)) with false. cbn [bind]. eexists. split; [reflexivity|].
-  split; [|cbn [iw_vi iw_ii]; auto].
-  constructor; cbn [iw_cs iw_ind iw_val iw_rawv iw_rawi iw_acc iw_ii iw_vi concat cumends]; try lia.
-  - rewrite len_repeat. lia.
-  - rewrite len_repeat. lia.
-  - rewrite Hd. reflexivity.
-  - reflexivity.
-  - exists []. rewrite Hd. split; [left; auto|reflexivity].
-Qed.
-
-(* ---- main theorem ---------------------------------------------------------------------- *)
-Lemma idx_writer_roundtrip_lemma (h5:bool) (cs:Z) (ops:list iwop) :
-  1 <= cs -> hist_ok false ops = true ->
-  iw_history h5 cs ops = Ok (stored_offsets (hist_written [] ops), spec_bytes (hist_written [] ops)).
-Proof.
-  intros Hcs Hok. unfold iw_history.
-  destruct (iw_init_fresh h5 cs Hcs) as (w0 & H0 & (I0 & C0)). rewrite H0. cbn [bind].
-  destruct (iw_run_inv ops w0 [] false I0 (fun _ => C0) Hok) as (w & Hr & Cw). rewrite Hr. cbn [bind].
-  destruct (clean_data w _ Cw) as (Di & Dv). rewrite Di, Dv. reflexivity.
-Qed.
-
-(* the property's histories: one write, or any partition into write_part calls then complete *)
-Lemma idx_write_lemma h5 cs strs : 1 <= cs ->
-  iw_history h5 cs [OpWrite strs] = Ok (stored_offsets strs, spec_bytes strs).
-Proof. intros Hcs. apply (idx_writer_roundtrip_lemma h5 cs [OpWrite strs] Hcs). reflexivity. Qed.
-
-Lemma hist_ok_parts parts : hist_ok true (map OpPart parts ++ [OpComplete]) = true.
-Proof. induction parts; cbn; auto. Qed.
-
-Lemma hist_written_parts parts : forall acc,
-  hist_written acc (map OpPart parts ++ [OpComplete]) = acc ++ concat parts.
-Proof.
-  induction parts as [|p t IH]; intros acc; cbn [map app hist_written concat].
-  - rewrite app_nil_r. reflexivity.
-  - rewrite IH, app_assoc. reflexivity.
-Qed.
-
-Lemma idx_partition_lemma h5 cs (parts:list (list (list Z))) : 1 <= cs ->
-  iw_history h5 cs (map OpPart parts ++ [OpComplete])
-  = Ok (stored_offsets (concat parts), spec_bytes (concat parts)).
-Proof.
-  intros Hcs.
-  pose proof (idx_writer_roundtrip_lemma h5 cs (map OpPart parts ++ [OpComplete]) Hcs) as H.
-  rewrite hist_written_parts in H. cbn [app] in H. apply H.
-  destruct parts; [reflexivity|]. cbn [map app hist_ok]. apply hist_ok_parts.
 Qed.
 
 (* ---- the offsets invariant of the property text ------------------------------------------ *)
@@ -398,6 +326,117 @@ Lemma stored_offsets_ok_lemma strs : strs <> [] ->
   offsets_ok (stored_offsets strs) (spec_bytes strs) (len strs).
 Proof.
   intros H. destruct strs as [|s t]; [congruence|]. unfold stored_offsets. apply offsets_ok_lemma.
+Qed.
+
+(* ---- histories, continued ---------------------------------------------------------------- *)
+(* a new wrapper on datasets that hold a completed column picks the running byte total up from
+   the last offset *)
+Lemma iw_reinit_clean w strs : Clean w strs ->
+  exists w', iw_init (iw_cs w) (iw_ind w) (iw_val w) = Ok w' /\ Clean w' strs.
+Proof.
+  intros Cw. destruct (clean_data w strs Cw) as (Di & Dv).
+  destruct Cw as (I & Hvi & Hii).
+  destruct I as [Hcs Hlrv Hlri _ _ Hb Hacc (flushed & Hrep & Hoffs)].
+  unfold iw_init, st_len. rewrite Di.
+  assert (Hacc' : exists acc, (if 0 <? len (stored_offsets strs)
+                               then np_index 1 (stored_offsets strs) (-1) else Ok 0) = Ok acc
+                              /\ acc = len (concat strs)).
+  { destruct strs as [|s t].
+    - exists 0. split; reflexivity.
+    - unfold stored_offsets.
+      destruct (offsets_ok_lemma (s :: t)) as (_ & _ & Hlast & Hlen).
+      pose proof (len_nonneg (s :: t)) as Hn.
+      replace (0 <? len (spec_offsets (s :: t))) with true by (symmetry; apply Z.ltb_lt; lia).
+      unfold np_index. replace (-1 <? 0) with true by reflexivity.
+      rewrite (getZ_ok 1) by lia.
+      exists (nthZ (spec_offsets (s :: t)) (-1 + len (spec_offsets (s :: t)))). split; [reflexivity|].
+      replace (-1 + len (spec_offsets (s :: t))) with (len (spec_offsets (s :: t)) - 1) by lia.
+      exact Hlast. }
+  destruct Hacc' as (acc & -> & Eacc). cbn [bind]. eexists. split; [reflexivity|].
+  split; [|cbn [iw_vi iw_ii]; auto].
+  constructor; cbn [iw_cs iw_ind iw_val iw_rawv iw_rawi iw_acc iw_ii iw_vi]; try lia.
+  - rewrite len_repeat. lia.
+  - rewrite len_repeat. lia.
+  - rewrite Dv. cbn [Z.to_nat firstn]. apply app_nil_r.
+  - exists flushed. split; [exact Hrep|]. rewrite Hii in Hoffs. exact Hoffs.
+Qed.
+
+Lemma iw_run_inv ops : forall w strs pending,
+  Inv w strs -> (pending = false -> iw_vi w = 0 /\ iw_ii w = 0) ->
+  hist_ok pending ops = true ->
+  exists w', iw_run w ops = Ok w' /\ Clean w' (hist_written strs ops).
+Proof.
+  induction ops as [|o t IH]; intros w strs pending I Hp Hok.
+  - cbn in *. exists w. destruct pending; [discriminate|]. split; [reflexivity|]. split; [exact I|]. apply Hp. reflexivity.
+  - cbn [iw_run hist_written]. destruct o as [p| |p| |]; cbn [iw_op hist_ok] in *.
+    + destruct (iw_write_part_inv p w strs I) as (w1 & H1 & I1). rewrite H1. cbn [bind].
+      apply (IH w1 _ true I1); [discriminate|exact Hok].
+    + destruct (iw_complete_inv w strs I) as (w1 & H1 & (I1 & C1)). rewrite H1. cbn [bind].
+      apply (IH w1 _ false I1); [intros _; exact C1|exact Hok].
+    + destruct (iw_write_part_inv p w strs I) as (w1 & H1 & I1). rewrite H1. cbn [bind].
+      destruct (iw_complete_inv w1 _ I1) as (w2 & H2 & (I2 & C2)). rewrite H2. cbn [bind].
+      apply (IH w2 _ false I2); [intros _; exact C2|exact Hok].
+    + apply andb_prop in Hok. destruct Hok as [Hnp Hok]. destruct pending; [discriminate|].
+      cbn [bind].
+      assert (Cw : Clean w strs) by (split; [exact I|apply Hp; reflexivity]).
+      destruct (iw_clear_clean w strs Cw) as (I1 & C1).
+      apply (IH (iw_clear w) [] false I1); [intros _; exact C1|exact Hok].
+    + apply andb_prop in Hok. destruct Hok as [Hnp Hok]. destruct pending; [discriminate|].
+      assert (Cw : Clean w strs) by (split; [exact I|apply Hp; reflexivity]).
+      destruct (iw_reinit_clean w strs Cw) as (w1 & H1 & (I1 & C1)). rewrite H1. cbn [bind].
+      apply (IH w1 strs false I1); [intros _; exact C1|exact Hok].
+Qed.
+
+Lemma iw_init_fresh h5 cs : 1 <= cs ->
+  exists w0, iw_init cs (fresh h5) (fresh h5) = Ok w0 /\ Clean w0 [].
+Proof.
+  intros Hcs. unfold iw_init.
+  assert (Hd : st_data (fresh h5) = []) by (destruct h5; reflexivity).
+  unfold st_len. rewrite Hd. change (0 <? len (@nil Z)) with false. cbn [bind]. eexists. split; [reflexivity|].
+  split; [|cbn [iw_vi iw_ii]; auto].
+  constructor; cbn [iw_cs iw_ind iw_val iw_rawv iw_rawi iw_acc iw_ii iw_vi concat cumends]; try lia.
+  - rewrite len_repeat. lia.
+  - rewrite len_repeat. lia.
+  - rewrite Hd. reflexivity.
+  - reflexivity.
+  - exists []. rewrite Hd. split; [left; auto|reflexivity].
+Qed.
+
+(* ---- main theorem ---------------------------------------------------------------------- *)
+Lemma idx_writer_roundtrip_lemma (h5:bool) (cs:Z) (ops:list iwop) :
+  1 <= cs -> hist_ok false ops = true ->
+  iw_history h5 cs ops = Ok (stored_offsets (hist_written [] ops), spec_bytes (hist_written [] ops)).
+Proof.
+  intros Hcs Hok. unfold iw_history.
+  destruct (iw_init_fresh h5 cs Hcs) as (w0 & H0 & (I0 & C0)). rewrite H0. cbn [bind].
+  destruct (iw_run_inv ops w0 [] false I0 (fun _ => C0) Hok) as (w & Hr & Cw). rewrite Hr. cbn [bind].
+  destruct (clean_data w _ Cw) as (Di & Dv). rewrite Di, Dv. reflexivity.
+Qed.
+
+(* the property's histories: one write, or any partition into write_part calls then complete *)
+Lemma idx_write_lemma h5 cs strs : 1 <= cs ->
+  iw_history h5 cs [OpWrite strs] = Ok (stored_offsets strs, spec_bytes strs).
+Proof. intros Hcs. apply (idx_writer_roundtrip_lemma h5 cs [OpWrite strs] Hcs). reflexivity. Qed.
+
+Lemma hist_ok_parts parts : hist_ok true (map OpPart parts ++ [OpComplete]) = true.
+Proof. induction parts; cbn; auto. Qed.
+
+Lemma hist_written_parts parts : forall acc,
+  hist_written acc (map OpPart parts ++ [OpComplete]) = acc ++ concat parts.
+Proof.
+  induction parts as [|p t IH]; intros acc; cbn [map app hist_written concat].
+  - rewrite app_nil_r. reflexivity.
+  - rewrite IH, app_assoc. reflexivity.
+Qed.
+
+Lemma idx_partition_lemma h5 cs (parts:list (list (list Z))) : 1 <= cs ->
+  iw_history h5 cs (map OpPart parts ++ [OpComplete])
+  = Ok (stored_offsets (concat parts), spec_bytes (concat parts)).
+Proof.
+  intros Hcs.
+  pose proof (idx_writer_roundtrip_lemma h5 cs (map OpPart parts ++ [OpComplete]) Hcs) as H.
+  rewrite hist_written_parts in H. cbn [app] in H. apply H.
+  destruct parts; [reflexivity|]. cbn [map app hist_ok]. apply hist_ok_parts.
 Qed.
 
 (* ... and not for the empty sequence: the dataset stays [] (F-C01e) *)
